@@ -1,0 +1,13 @@
+//go:build verif
+
+package rcall
+
+// VerifLoopCountRcall reports how many expansions the last generation used.
+func VerifLoopCountRcall() int {
+	return loopCount
+}
+
+// VerifBudgetRcall reports the number of expansions one generation may use.
+func VerifBudgetRcall() int {
+	return loopDepth
+}
